@@ -734,3 +734,12 @@ def c12q(ctx):
     ctx.check(ok, 'SeedScript.__call__:old-progress-only-with-continue', 'ProgressStore(.., continue_seed=options.continue_seed)', fn,
               fail='mapproxy-seed loads the saved progress of an earlier run without being asked to continue: levels that run had passed are '
                    'skipped')
+
+
+@rule('C12.r', floor=4)
+def c12r(ctx):
+    """shared rule C11.n, re-evaluated for this property: a dry run of a clean-up removes nothing, so it must not record (or discard)
+    progress either -- the directory clean-up saves the level it works on, and an interrupted `--dry-run --cleanup` followed by
+    `--continue` would skip the levels the dry run had passed: their expired tiles stay (D51)"""
+    from ..engine import share
+    share(ctx, 'C11', {'C11.n'})
